@@ -52,6 +52,8 @@ impl<T> Queue<T> {
             data: MaybeUninit::uninit(),
             next: RawAtomic::null(),
         });
+        #[cfg(feature = "circ_verif")]
+        crate::verif::expose(sentinel.as_raw());
         q.head.store(sentinel, Relaxed);
         q.tail.store(sentinel, Relaxed);
         q
@@ -105,6 +107,8 @@ impl<T> Queue<T> {
             data: MaybeUninit::new(t),
             next: RawAtomic::null(),
         });
+        #[cfg(feature = "circ_verif")]
+        crate::verif::expose(new.as_raw());
 
         loop {
             // We push onto the tail, so we'll start optimistically by looking there first.
